@@ -38,7 +38,10 @@ def run(ctx, rep):
     for name in ('parity_chsize', 'state_refresh', 'state_write', 'state_sync_process'):
         cs = list(s.calls(name))
         if len(cs) != 1:
-            raise AnalysisBroken('state_sync: expected one call of %s' % name)
+            if not P.variants(name):
+                raise AnalysisBroken('state_sync: anchor function %s does not exist' % name)
+            rep.fail('R-C07-2', 'state_sync calls %s exactly once' % name, s.file, '%d calls of %s in state_sync' % (len(cs), name), function='state_sync', construct='missing %s' % name)
+            continue
         order.append(cs[0])
     for a, b in zip(order, order[1:]):
         ok = s.dom_or_loop(a, b) or (b.id in s.reach([a]) and a.id not in s.reach([b]) and s.must_pass(b, [a], start=s.blocks[a.block][0]) )
